@@ -537,6 +537,17 @@ func checkC15(res *Result) {
 					found = i
 				}
 			}
+			if found < 0 {
+				// the reviewed loop moved into another method of the same type (a helper split out
+				// of the reviewed method): same receiver type, same ranged expression
+				if i := strings.Index(s.fn, "."); i > 0 {
+					for j, rv := range reviewedRanges {
+						if k := strings.Index(rv.fn, "."); k > 0 && rv.fn[:k] == s.fn[:i] && rv.expr == s.expr && !reviewedUsed[j] {
+							found = j
+						}
+					}
+				}
+			}
 			if found < 0 && witness["sorted-by-callee"] && appendsFollowedBySortingCallee(s.rs) {
 				// not in the table, but of the mechanisable kind "sorted by callee": every append is
 				// followed by the callee that sorts the whole slice (witness re-verified under C15-R3)
@@ -663,6 +674,7 @@ func checkC15(res *Result) {
 	checkC15Algebra(res, pkgs)
 	checkC15LoopState(res, pkgs)
 	checkAllExtendsAreIn(res, pkgs)
+	checkReferenceNodesPerVocabulary(res, pkgs)
 	for i, rv := range reviewedRanges {
 		if !reviewedUsed[i] {
 			fmt.Printf("NOTE: reviewed map-range entry no longer matches a site: %s over %s\n", rv.fn, rv.expr)
